@@ -156,6 +156,63 @@ flow:
           at: end
 `
 
+// companion flows on the same URL pattern that are told apart by the other filter kinds (query parameters,
+// headers, methods, status codes): the selection itself then has to parse the transaction
+func hostileCompanion(name, constraint string) string {
+	return "name: " + name + `
+filter:
+  url: "h.com/*"
+` + constraint + `processors:
+  F:
+    processor: Filter
+    parameters:
+      - key: header
+        value: "x-never=1"
+flow:
+  request:
+    - from:
+        stream:
+          name: globalStream
+          at: start
+      to:
+        processor:
+          name: F
+    - from:
+        processor:
+          name: F
+          condition: hit
+      to:
+        stream:
+          name: globalStream
+          at: end
+    - from:
+        processor:
+          name: F
+          condition: miss
+      to:
+        stream:
+          name: globalStream
+          at: end
+  response:
+    - from:
+        stream:
+          name: globalStream
+          at: start
+      to:
+        stream:
+          name: globalStream
+          at: end
+`
+}
+
+var hostileCompanions = map[string]string{
+	"q1.yaml": hostileCompanion("q1", "  query_params:\n    - key: version\n      value: \"1\"\n"),
+	"q2.yaml": hostileCompanion("q2", "  query_params:\n    - key: version\n      value: \"2\"\n    - key: limit\n      value: \"1\"\n"),
+	"hd.yaml": hostileCompanion("hd", "  headers:\n    - key: x-who\n      value: gzip\n"),
+	"me.yaml": hostileCompanion("me", "  method: [POST, PUT]\n"),
+	"st.yaml": hostileCompanion("st", "  status_code: [500, 599]\n"),
+}
+
 var hostileBodies = []string{
 	"", " ", "null", "true", "0", "-0", "1e999", "\"s\"", "[]", "{}", "[[[[[[[[[[[[[[[[[[[[]]]]]]]]]]]]]]]]]]]]",
 	`{"a":1}`, `{"a":{"b":{"c":{"d":{"e":{"f":{}}}}}}}`, `{"a":"needle","c":[1,2,3],"d":"x","e":[{"f":"y"}]}`,
@@ -185,6 +242,9 @@ func TestHostileTransactions(t *testing.T) {
 	}
 	defer dir.Remove()
 	_ = dir.WriteFlow("hostile.yaml", hostileFlows)
+	for name, y := range hostileCompanions {
+		_ = dir.WriteFlow(name, y)
+	}
 	s, err := dir.Load()
 	if err != nil {
 		fmt.Println("VERIF-INFRA: the fixed body-parsing configuration was rejected:", err)
@@ -221,7 +281,7 @@ func TestHostileTransactions(t *testing.T) {
 		}
 		path := "/" + genHostileString("path").Draw(t, "path")
 		url := "h.com" + path
-		query := rapid.OneOf(rapid.SampledFrom([]string{"", "limit=1", "limit", "limit=1&limit=2", "=", "&&&", "a=%zz", "limit[0]=x"}), genHostileString("q")).Draw(t, "query")
+		query := rapid.OneOf(rapid.SampledFrom([]string{"", "limit=1", "limit", "limit=1&limit=2", "=", "&&&", "a=%zz", "limit[0]=x", "version=1", "version=2&limit=1", "version=%zz", "version"}), genHostileString("q")).Draw(t, "query")
 		status := rapid.SampledFrom([]int{0, 200, 500, 599, 600, -1, 99999}).Draw(t, "status")
 		n++
 		id := fmt.Sprintf("h%d", n)
